@@ -66,6 +66,62 @@ def _roles(e: ast.AST) -> set:
     return out
 
 
+def _product_order_rule(ctx, r2) -> None:
+    """`product([A, B, …])` (used for generator strings "A*B") is A·B·…: the fold is evaluated on the two-letter word [A, B] — operations do not commute."""
+    idx = ctx.index
+    try:
+        pf = idx.function(PS, "product")
+    except Exception:
+        return
+    lstp = pf.params[0] if pf.params else "lst"
+    r2.instance(pf.short)
+
+    def order_of(it: ast.AST) -> Optional[List[str]]:
+        t = norm(it).replace(" ", "")
+        if t == lstp or t == f"list({lstp})":
+            return ["A", "B"]
+        if t in (f"{lstp}[-1::-1]", f"{lstp}[::-1]", f"reversed({lstp})", f"list(reversed({lstp}))"):
+            return ["B", "A"]
+        return None
+
+    def step(expr: ast.AST, acc: str, op: str, word: List[str], x: str) -> Optional[List[str]]:
+        if isinstance(expr, ast.BinOp) and isinstance(expr.op, (ast.Mult, ast.MatMult)):
+            l, r = norm(expr.left), norm(expr.right)
+            if (l, r) == (op, acc):
+                return [x] + word
+            if (l, r) == (acc, op):
+                return word + [x]
+        return None
+    word = None
+    node = pf.node
+    for st in pf.node.body:
+        if isinstance(st, ast.For) and isinstance(st.target, ast.Name) and len(st.body) == 1 and isinstance(st.body[0], ast.Assign) and isinstance(st.body[0].targets[0], ast.Name):
+            seq = order_of(st.iter)
+            acc, op = st.body[0].targets[0].id, st.target.id
+            if seq is not None:
+                w: Optional[List[str]] = []
+                for x in seq:
+                    w = step(st.body[0].value, acc, op, w, x) if w is not None else None
+                word, node = w, st
+        for c in ast.walk(st):
+            if isinstance(c, ast.Call) and call_name(c) in ("reduce", "functools.reduce") and len(c.args) >= 2 and isinstance(c.args[0], ast.Lambda) and len(c.args[0].args.args) == 2:
+                seq = order_of(c.args[1])
+                acc, op = (a.arg for a in c.args[0].args.args)
+                if seq is not None:
+                    w = [] if len(c.args) == 3 else None
+                    if w is None:
+                        w, seq = [seq[0]], seq[1:]
+                    for x in seq:
+                        w = step(c.args[0].body, acc, op, w, x) if w is not None else None
+                    word, node = w, c
+    if word is None:
+        r2.expect(False, "", pf, pf.node, "product(): the fold over the list of operations is neither a `for` accumulation nor a reduce(lambda …) the rule can evaluate")
+    else:
+        r2.check(word == ["A", "B"], "product([A, B]) = A·B (list order; the right-most operation acts first)", pf, node,
+                 f"product([A, B]) is evaluated as {'·'.join(word)}: a generator declared as \"A*B\" yields another operation whenever A and B do not commute, so the "
+                 f"declared group is not the system's symmetry group and irreducible-K runs / symmetrisation use wrong operations", stmt="product order")
+
+
 def _matmul_chain(e: ast.AST):
     """([matrix factors in order], [scalar factors]) of an expression built from @ / .dot / np.dot and `* scalar`; None if other operators occur.
     A product in parentheses multiplied by a scalar scales the whole chain; scalar factors are products of names / attributes (no matrices)."""
@@ -307,6 +363,7 @@ def run(ctx) -> None:
 
     # ---------------------------------------------------------------- R07.2
     r2 = ctx.rule("R07.2", "group average = sum over all operations / number of operations", min_instances=2)
+    _product_order_rule(ctx, r2)
     pg = idx.cls(PS, "PointGroup")
     for mname in ("symmetrize", "symmetrize_tensor"):
         m = pg.methods.get(mname)
